@@ -8,7 +8,7 @@
     run on an enumerated family of machines (harness/cmd/c18, lean/Oracle/C18.lean).
   * proved, about the lint itself (`BMV.Vlog.Design.lint`, the definition the per-run check evaluates):
       `wf_single_driver`   a lint-clean design has at most one `always` block writing any variable
-      `wf_net_single_driver`, `wf_assign_kinds`   the other two lint classes, from the definition
+      `wf_proc_assigns_regs`, `wf_cont_assigns_nets`   the assignment-kind class, from the definition
       `wf_decidable`
       `resolve_closed_partial`, `wf_total_partial_expr`   the part of `wf_total` that closes: name
          resolution leaves no identifier behind, and an identifier-free expression over in-range scalar
@@ -28,6 +28,7 @@
 import BMV.Vlog.Check
 import BMV.So
 import BMV.Proofs.So
+import BMV.Proofs.VlogTotal
 namespace BMV.Props.C18
 open BMV.Vlog BMV.So
 
@@ -172,6 +173,102 @@ def wf_decidable (d : Design) : Decidable (d.WF = true) := inferInstance
 theorem wf_decidable_spec (d : Design) : d.WF = true ↔ d.lint = [] := by
   unfold Design.WF
   exact List.isEmpty_iff
+
+/-! non-vacuity of the lint theorems: a clean design with two always blocks, and the barrier's shape -/
+
+def cleanDesign : Design :=
+  { top := "t", sigs := #[{ name := "a", width := 8, kind := .reg }, { name := "b", width := 4, kind := .reg }],
+    assigns := #[], combs := #[],
+    procs := #[⟨[], .assign false (.sig 0) (.num (some 8) 1)⟩, ⟨[], .assign false (.sig 1) (.num (some 4) 2)⟩],
+    inits := #[], roots := #[0, 1] }
+
+/-- `done` set in one always block and cleared in another: the barrier shared object of /repo -/
+def barrierShape : Design :=
+  { cleanDesign with
+    procs := #[⟨[], .assign false (.sig 0) (.num (some 8) 0)⟩, ⟨[], .ite (.sig 1) (.assign false (.sig 0) (.num (some 8) 1)) .null⟩] }
+
+example : cleanDesign.WF = true := by decide
+example : 0 ∈ cleanDesign.blockTargets 0 ∧ 1 ∈ cleanDesign.blockTargets 1 := by decide
+example : barrierShape.WF = false := by decide
+example : 0 ∈ barrierShape.blockTargets 0 ∧ 0 ∈ barrierShape.blockTargets 1 := by decide
+
+/-! ## `wf_total`: the full statement, and the part that is proved -/
+
+/-- an evaluation error of the *elaboration class*: a name that was never resolved, or a signal index
+    that does not exist in the design (messages of `BMV.Vlog.Sem`) -/
+def ElabClassError (msg : String) : Bool :=
+  msg.startsWith "undeclared identifier" || msg.startsWith "internal: signal index"
+
+/-- **wf_total — full statement, NOT proved**: a design produced by `elaborate` and accepted by the lint
+    never hits an elaboration-class error during a clock cycle, whatever the state and the inputs.
+    (Evaluation-class errors — out-of-range dynamic index, division by zero, non-settling logic —
+    remain possible; docs/Vlog.md §3.) -/
+def wf_total : Prop :=
+  ∀ (src : Source) (top : Option String) (d : Design), elaborate src top = .ok d → d.WF = true →
+    ∀ (clk : Nat) (st : State) (inputs : List (Nat × Nat)) (msg : String),
+      d.cycle clk st inputs = .error msg → ElabClassError msg = false
+
+/-- **resolve_closed_partial** (first half of the partial): whatever `resolveExpr` accepts contains no
+    source-level identifier any more, so the evaluator's `undeclared identifier` branch is unreachable on
+    elaborated expressions.  (Missing for the full theorem: the same for statements / `for` unrolling,
+    and that every `.sig i` produced is `< sigs.size`.) -/
+theorem resolve_closed_partial (sc : Scope) (e e' : Expr) (h : resolveExpr sc e = .ok e') :
+    closed e' = true := resolveExpr_closed sc e e' h
+
+theorem resolve_closed_list_partial (sc : Scope) (es es' : List Expr) (h : resolveExprs sc es = .ok es') :
+    closedL es' = true := resolveExprs_closed sc es es' h
+
+/-- **wf_total_partial_expr** (second half): on the `simple` fragment — identifier-free expressions over
+    existing non-memory signals, without selects and without `/` `%` — width computation, evaluation in
+    any context width and the right-hand side of an assignment never return an error of *any* class, in
+    every state that has storage for the design's signals.  (Missing for the full theorem: selects and
+    memories — whose errors are evaluation-class by design —, statements, `settle`, `cycle`.) -/
+theorem wf_total_partial_expr (sigs : Array Sig) (st : State) (hst : StateOk sigs st) (e : Expr)
+    (he : simple sigs e = true) :
+    (∃ w, selfW sigs e = .ok w) ∧ (∀ W, ∃ v, evalC sigs st W e = .ok v) ∧
+    (∀ lw, ∃ v, evalAssign sigs st lw e = .ok v) := by
+  refine ⟨selfW_ok sigs e he, evalC_ok sigs st hst e he, ?_⟩
+  intro lw
+  obtain ⟨w, hw⟩ := selfW_ok sigs e he
+  obtain ⟨v, hv⟩ := evalC_ok sigs st hst e he (max lw w)
+  exact ⟨v % pow2 lw, by simp [evalAssign, hw, hv, bind, Except.bind, pure, Except.pure]⟩
+
+/-- a `simple` expression is closed: the two halves meet -/
+theorem simple_closed (sigs : Array Sig) : ∀ (e : Expr), simple sigs e = true → closed e = true
+  | .num _ _, _ => rfl
+  | .sig _, _ => rfl
+  | .cat es, h => by simp only [simple] at h; simp [closed, simpleL_closedL sigs es h]
+  | .rep (.num _ _) es, h => by simp only [simple] at h; simp [closed, simpleL_closedL sigs es h]
+  | .un _ e, h => by simp only [simple] at h; simp [closed, simple_closed sigs e h]
+  | .bin _ a b, h => by
+    simp only [simple, Bool.and_eq_true] at h
+    simp [closed, simple_closed sigs a h.1.2, simple_closed sigs b h.2]
+  | .cond c a b, h => by
+    simp only [simple, Bool.and_eq_true] at h
+    simp [closed, simple_closed sigs c h.1.1, simple_closed sigs a h.1.2, simple_closed sigs b h.2]
+where
+  simpleL_closedL (sigs : Array Sig) : ∀ (es : List Expr), simpleL sigs es = true → closedL es = true
+    | [], _ => rfl
+    | e :: es, h => by
+      simp only [simpleL, Bool.and_eq_true] at h
+      simp [closedL, simple_closed sigs e h.1, simpleL_closedL sigs es h.2]
+
+/-! non-vacuity: a concrete design fragment meeting the hypotheses -/
+
+def demoSigs : Array Sig := #[{ name := "a", width := 8, kind := .reg }, { name := "b", width := 4, kind := .wire }]
+def demoState : State := #[#[200], #[9]]
+/-- `{a + 8'd100, ~b}` with a conditional: simple, and its value is what IEEE width rules give -/
+def demoExpr : Expr :=
+  .cond (.bin .lt (.sig 1) (.num (some 4) 10)) (.cat [.bin .add (.sig 0) (.num (some 8) 100), .un .bnot (.sig 1)]) (.num (some 12) 0)
+
+example : simple demoSigs demoExpr = true := by decide
+example : StateOk demoSigs demoState := by
+  intro i s h
+  match i, h with
+  | 0, _ => exact ⟨#[200], 200, rfl, rfl⟩
+  | 1, _ => exact ⟨#[9], 9, rfl, rfl⟩
+  | n + 2, h => simp [demoSigs] at h
+example : ∃ e', resolveExpr ({} : Scope) (.bin .add (.num none 1) (.cat [.num (some 4) 2])) = .ok e' := ⟨_, rfl⟩
 
 /-! ## the shared-object header model (BMV.So) -/
 
